@@ -104,7 +104,7 @@ type scenario struct {
 	K       int    `json:"calls_to_closing_side"`
 	K2      int    `json:"calls_from_closing_side"`
 	Point   string `json:"handlers_parked_at"`
-	Closer  string `json:"closer"` // session | peer
+	Closer  string `json:"closer"` // session | peer | double (two concurrent Session.Close calls)
 	Class   string `json:"class"`
 	Sess    int    `json:"sessions"`
 	DelayPM int    `json:"gate_delay_permille"`
@@ -251,7 +251,25 @@ func runScenario(id string, sc scenario, r *core.Rand) {
 	if sc.Point != "random" {
 		settle() // Close is now waiting (or has wrongly returned)
 	}
-	earlyReturn := atomic.LoadInt64(&closeRet) != 0 && sc.Point != "random" && sc.Point != "handlecall.afterReply" && total > 0
+	// a second, concurrent Close() of the same sessions must wait just like the first one
+	var close2Ret int64
+	closed2 := make(chan struct{})
+	if sc.Closer == "double" {
+		go func() {
+			var wg sync.WaitGroup
+			for _, l := range links {
+				wg.Add(1)
+				go func(s erpc.Session) { defer wg.Done(); s.Close() }(l.B)
+			}
+			wg.Wait()
+			atomic.StoreInt64(&close2Ret, stamp())
+			close(closed2)
+		}()
+		settle()
+	} else {
+		close(closed2)
+	}
+	earlyReturn := (atomic.LoadInt64(&closeRet) != 0 || atomic.LoadInt64(&close2Ret) != 0) && sc.Point != "random" && sc.Point != "handlecall.afterReply" && total > 0
 	// release the handlers
 	if trap != nil {
 		trap.Release()
@@ -281,6 +299,15 @@ func runScenario(id string, sc scenario, r *core.Rand) {
 		return
 	}
 	cret := atomic.LoadInt64(&closeRet)
+	select {
+	case <-closed2:
+	default:
+		core.Result(core.R{ID: id, Verdict: core.Violated, FP: fmt.Sprintf("C08/%s/%s/%s/close-hung", sc.Proto, sc.Point, sc.Closer), What: "the second Close() did not return at quiescence after all handlers were released", Desc: sc})
+		return
+	}
+	if c2 := atomic.LoadInt64(&close2Ret); c2 != 0 && c2 < cret {
+		cret = c2 // every Close() call must wait: judge the earliest return
+	}
 	// reply frames on the wire: stamp of the first write containing the reply token
 	find := func(tl *tapLog, tok string) int64 {
 		tl.mu.Lock()
@@ -419,7 +446,7 @@ func main() {
 	for _, pn := range protosQ {
 		for _, pt := range []string{"handlecall.enter", "inside", "handlecall.beforeReply", "handlecall.afterReply"} {
 			for _, k := range ks {
-				for _, cl := range []string{"session", "peer"} {
+				for _, cl := range []string{"session", "peer", "double"} {
 					sess := 1
 					if cl == "peer" {
 						sess = 3
